@@ -10,7 +10,7 @@ ROOT = os.path.dirname(os.path.dirname(os.path.abspath(__file__)))
 # id -> (category, technique, text, note, design_ref)
 CHECKS = {
  "C01": ("exploration", "differential execution of replicas (real ABCI mux) + Go race detector",
-   "Generated block histories are executed on a reference replica and 3-4 test replicas that take PRNG-assigned execution paths (proposer with cached results, validator, plain replay, round change, restart from disk, crash mid-block) on both node-database backends with pruning, while CheckTx, EstimateGas and historical queries run concurrently under the race detector; AppHash, per-transaction code/codespace/data and validator updates must be byte-identical to the reference at every height, honest proposals must be accepted, and any race report fails the check. Held on the histories and interleavings that were executed, nothing more. Scenario profiles include key manager traffic and an 'evidence' profile (consensus evidence in every third block with infraction heights up to 14 blocks back, pruning replicas keeping two versions against an archive reference).",
+   "Generated block histories are executed on a reference replica and 3-4 test replicas that take PRNG-assigned execution paths (proposer with cached results, validator, plain replay, round change, restart from disk, crash mid-block) on both node-database backends with pruning, while CheckTx, EstimateGas and historical queries run concurrently under the race detector; AppHash, per-transaction code/codespace/data and validator updates must be byte-identical to the reference at every height, honest proposals must be accepted, and any race report fails the check. Held on the histories and interleavings that were executed, nothing more. Scenario profiles include key manager traffic and an 'evidence' profile (consensus evidence in every third block with infraction heights up to 14 blocks back, pruning replicas keeping two versions against an archive reference). On-disk replicas run the real node-local upgrade manager; finalization gets a complete block header, the proposal phase the multiplexer's partial one.",
    "Trusted: the harness's block driver reproduces CometBFT's ABCI call discipline (one serialised ABCI connection, free-running queries/simulation/pruner); divergence needing another binary/OS/architecture is out of reach.",
    "DESIGN.md 4/C01"),
  "C02": ("exploration", "multi-route differential + independent reference hasher",
@@ -18,7 +18,7 @@ CHECKS = {
    "Trusted: the reference hasher is written from the hash definitions in node.go only; SHA-512/256 collision resistance.",
    "DESIGN.md 4/C02"),
  "C03": ("exploration", "online reference-model monitor (ordered map)",
-   "Random operation histories (insert, remove, get, iterate/seek, nested overlays with commit/discard/copy, tree commit, close/reopen) are executed against the real tree under several cache capacities, backends and write-log settings; every returned value and every iteration is compared with a reference ordered map. About a quarter of the operations are first attempted under an injected fault (failing GetNode, cancelled context) and must then leave the map unchanged. The api.Context mechanism is driven in all six context modes, with transactions opened on NewChild / WithSimulation / WithCallerAddress children.",
+   "Random operation histories (insert, remove, get, iterate/seek, nested overlays with commit/discard/copy, tree commit, close/reopen) are executed against the real tree under several cache capacities, backends and write-log settings; every returned value and every iteration is compared with a reference ordered map. About a quarter of the operations are first attempted under an injected fault (failing GetNode, cancelled context) and must then leave the map unchanged. The api.Context mechanism is driven in all six context modes, with transactions opened on NewChild / WithSimulation / WithCallerAddress children. A partial scan is followed by a second Seek and a Rewind of the same, still positioned iterator; keys of up to and beyond 8191 bytes are probed.",
    "Trusted: the reference map (Go map + sort).",
    "DESIGN.md 4/C03"),
  "C04": ("exploration", "evil-peer fault injection + model oracle over answers",
@@ -30,7 +30,7 @@ CHECKS = {
    "Trusted: typed state readers of the staking state package; the in-tree supplementary sanity checker is not used.",
    "DESIGN.md 4/C05"),
  "C06": ("exploration", "history monitor with full read-back, cross-backend differential, porcupine, race detector",
-   "Generated NodeDB version histories (competing candidate roots sharing and re-creating nodes, IO and state roots, arbitrary finalisation, lagging pruning) on both backends; after every operation every retained finalized root is fully read back against a model, discarded roots must be absent or intact, both backends must answer identically; concurrent readers run against a committer/finalizer/pruner under the race detector and metadata operations are checked for linearizability. Long-lived trees kept across versions (same root committed twice, prefix keys embedded and un-embedded, leaves becoming and ceasing to be the root), on-disk histories with reopen and compaction, and a commit-versus-finalize family whose interleavings are chosen by parking goroutines at the hook points are part of every run.",
+   "Generated NodeDB version histories (competing candidate roots sharing and re-creating nodes, IO and state roots, arbitrary finalisation, lagging pruning) on both backends; after every operation every retained finalized root is fully read back against a model, discarded roots must be absent or intact, both backends must answer identically; concurrent readers run against a committer/finalizer/pruner under the race detector and metadata operations are checked for linearizability. Long-lived trees kept across versions (same root committed twice, prefix keys embedded and un-embedded, leaves becoming and ceasing to be the root), on-disk histories with reopen and compaction, and a commit-versus-finalize family whose interleavings are chosen by parking goroutines at the hook points are part of every run. Committed candidates that are not finalized yet are read back after every operation as well; a third of the histories run with DiscardWriteLogs (the consensus configuration).",
    "Trusted: the per-root model; porcupine's checker. Known open findings on the hashed badger backend are listed in KNOWN_FINDINGS.jsonl.",
    "DESIGN.md 4/C06"),
  "C07": ("fault_enumeration", "SIGKILL at every crash point x hit index (H3) + reopen/retry oracle",
@@ -42,11 +42,11 @@ CHECKS = {
    "Trusted: the authentication model (signature, nonce, balance, reserved address); key-manager methods only to validation depth.",
    "DESIGN.md 4/C08"),
  "C09": ("exploration", "history monitor with independent signature verifier and forger",
-   "Fresh, replayed, reordered, bit-flipped and cross-context transactions are delivered; a transaction that takes effect (non-empty state diff or code OK) must verify under an independent ed25519 check of this chain's transaction context, carry the signer's current nonce, advance exactly that nonce by one, and its bytes never take effect twice. Copies of the proposer's own proposal with one signature bit flipped are offered to ProcessProposal, and signatures made for another domain are first shown to that domain's handler inside a carrier transaction.",
+   "Fresh, replayed, reordered, bit-flipped and cross-context transactions are delivered; a transaction that takes effect (non-empty state diff or code OK) must verify under an independent ed25519 check of this chain's transaction context, carry the signer's current nonce, advance exactly that nonce by one, and its bytes never take effect twice. Copies of the proposer's own proposal with one signature bit flipped are offered to ProcessProposal, and signatures made for another domain are first shown to that domain's handler inside a carrier transaction. All 256 bits of the stated public key are flipped, some accounts start at the end of the 64-bit nonce space, and a decodable envelope whose signature does not verify must be refused by signature verification itself.",
    "Trusted: independent sha512/256 + ed25519 verification in the harness.",
    "DESIGN.md 4/C09"),
  "C10": ("exploration", "panic/reject monitor over hostile block histories",
-   "Every generated history (including a hostile profile: extreme amounts, all validators absent, evidence against unknown/frozen validators, slashing to zero, proposals closing with debonding and rewards on one epoch boundary) must complete BeginBlock/DeliverTx/EndBlock/Commit without panic, empty proposal or rejected honest proposal; the documented stake precondition (no stake-eligible validators / zero total voting stake) ends a history without verdict. Histories include runtime scenarios (round timers, suspensions, liveness evaluation), vault traffic and node role / entity changes. Governance storms (two proposals per block, every entity voting on every active proposal) and key manager traffic are part of the histories.",
+   "Every generated history (including a hostile profile: extreme amounts, all validators absent, evidence against unknown/frozen validators, slashing to zero, proposals closing with debonding and rewards on one epoch boundary) must complete BeginBlock/DeliverTx/EndBlock/Commit without panic, empty proposal or rejected honest proposal; the documented stake precondition (no stake-eligible validators / zero total voting stake) ends a history without verdict. Histories include runtime scenarios (round timers, suspensions, liveness evaluation), vault traffic and node role / entity changes. Governance storms (two proposals per block, every entity voting on every active proposal) and key manager traffic are part of the histories. Registrations of new runtimes that pass the registry but are refused by the roothash application are generated.",
    "Trusted: LastCommitInfo always lists exactly the current validator set as CometBFT guarantees.",
    "DESIGN.md 4/C10"),
  "C11": ("exploration", "exhaustive small-scope enumeration against an event-log checker and a reference decision function",
@@ -58,11 +58,11 @@ CHECKS = {
    "Trusted: the reference map.",
    "DESIGN.md 4/C12"),
  "C13": ("exploration", "write-log round trip + corruption enumeration",
-   "For consecutive finalized roots the write log served by the database, applied at the first root, must produce the second; LocalBackend.Apply must persist only logs that hash to the expected root (corrupted logs fail unless semantically neutral per the model) and must not leave the root visible after a failure. Commits refused by the node database (six reasons) followed by further updates and a successful commit of the same tree are part of a third of the batches; the log returned by Commit is judged like the served one. Evicting-leader cases: a leader tree with a small value cache (prefix-free keys) rewrites unchanged values and reads other leaves before committing; the stored and the returned log must still describe the transition.",
+   "For consecutive finalized roots the write log served by the database, applied at the first root, must produce the second; LocalBackend.Apply must persist only logs that hash to the expected root (corrupted logs fail unless semantically neutral per the model) and must not leave the root visible after a failure. Commits refused by the node database (six reasons) followed by further updates and a successful commit of the same tree are part of a third of the batches; the log returned by Commit is judged like the served one. Evicting-leader cases: a leader tree with a small value cache (prefix-free keys) rewrites unchanged values and reads other leaves before committing; the stored and the returned log must still describe the transition. A log with more entries than the streaming iterator buffers is read with pauses while its version is pruned: it may be refused, but must not end without an error unless complete.",
    "Trusted: the reference map deciding semantic neutrality.",
    "DESIGN.md 4/C13"),
  "C14": ("exploration", "recomputed-eligibility monitor at election taps (H2)",
-   "At every election of generated histories the oracle recomputes eligibility from registry/staking/scheduler state at the elect.pre tap and checks the elected validator set and the executor committees of the generated runtime (only eligible nodes, limits, per-entity caps, minimum pool size, exact sizes or no committee, stake order, power monotone), and that the validator updates turn the simulated CometBFT validator set into exactly the elected set; results are compared across replicas. A block in which the reference ran an election and rejects the proposing replica's state root is reported as replicas disagreeing on an election.",
+   "At every election of generated histories the oracle recomputes eligibility from registry/staking/scheduler state at the elect.pre tap and checks the elected validator set and the executor committees of the generated runtime (only eligible nodes, limits, per-entity caps, minimum pool size, exact sizes or no committee, stake order, power monotone), and that the validator updates turn the simulated CometBFT validator set into exactly the elected set; results are compared across replicas. A block in which the reference ran an election and rejects the proposing replica's state root is reported as replicas disagreeing on an election. Every other two-deployment scenario lists the upcoming deployment first.",
    "Trusted: the harness's re-implementation of the eligibility predicate from the property statement.",
    "DESIGN.md 4/C14"),
  "C15": ("exploration", "exact integer inequalities over API sequences + chain taps",
@@ -70,11 +70,11 @@ CHECKS = {
    "Trusted: math/big.",
    "DESIGN.md 4/C15"),
  "C16": ("exploration", "structure-aware mutational fuzzing in child processes (race/checkptr build)",
-   "Valid encodings produced by the harness are mutated (bit/byte/length/nesting/duplication/truncation) and fed to every untrusted decode/verify boundary and to CheckTx/DeliverTx of a live multiplexer; no panic, hang or allocation blow-up, and a following valid block must still execute. Besides random mutants every valid seed goes through deterministic series: every truncation length, every single byte deleted, every length field moved by +-1..4, every optional field absent / null (all combinations for paired structures); proofs nested through every child slot are bounded by counting verifier invocations and by a stack limit; the host protocol is driven by adversarial peer scripts whose outcome is decided from goroutine dumps.",
+   "Valid encodings produced by the harness are mutated (bit/byte/length/nesting/duplication/truncation) and fed to every untrusted decode/verify boundary and to CheckTx/DeliverTx of a live multiplexer; no panic, hang or allocation blow-up, and a following valid block must still execute. Besides random mutants every valid seed goes through deterministic series: every truncation length, every single byte deleted, every length field moved by +-1..4, every optional field absent / null (all combinations for paired structures); proofs nested through every child slot are bounded by counting verifier invocations and by a stack limit; the host protocol is driven by adversarial peer scripts whose outcome is decided from goroutine dumps. Write logs with keys of 8191..65536 bytes are part of the deterministic series; the thorough tier first runs an -asan build of the same workload.",
    "Absence of findings over the sampled inputs only.",
    "DESIGN.md 4/C16"),
  "C17": ("exploration", "index/claims recomputation + authority monitor over state diffs",
-   "After every block of registry-heavy histories (registrations, key rotation/swap, expiry, deregistration) every node must resolve under each current key, keys are unique, indexes equal what primary records imply, stake claims equal the registered objects, and records change only in transactions signed with the right authority. The descriptor of an entity-governed runtime may only change in a transaction of that entity (also while suspended). Histories with a key manager: one CHURP stake claim per stored CHURP instance is expected on the owner's account.",
+   "After every block of registry-heavy histories (registrations, key rotation/swap, expiry, deregistration) every node must resolve under each current key, keys are unique, indexes equal what primary records imply, stake claims equal the registered objects, and records change only in transactions signed with the right authority. The descriptor of an entity-governed runtime may only change in a transaction of that entity (also while suspended). Histories with a key manager: one CHURP stake claim per stored CHURP instance is expected on the owner's account. A node's identity key counts in key uniqueness; the thresholds recorded with every claim are compared with those the registered object implies; descriptors in which one key signs twice in place of another are generated.",
    "Trusted: typed registry/staking state readers.",
    "DESIGN.md 4/C17"),
  "C18": ("fault_enumeration", "mutation enumeration of attestation vectors with acceptance oracle",
@@ -82,7 +82,7 @@ CHECKS = {
    "Only the vectors in the repository; crypto of the Go standard library trusted.",
    "DESIGN.md 4/C18"),
  "C19": ("fault_enumeration", "field/byte-level alteration of provider responses with normal-form oracle",
-   "Every field and byte of recorded provider responses (block, results, validators, parameters, transactions, proofs) is altered; an accepted response must have the same header-bound normal form as the original; inclusion proofs verify only for their own transaction and block. Multi-height histories run against one long-lived Core with responses of other heights relabelled, so stale caches show; times are compared exactly (sub-second alterations). Whole CBOR items of every provider blob are replaced by null / empty containers (nil pointers and nil slice entries on the Go side); Core.GetTransactionsWithResults is called with transactions of another height and, for the latest height, against an honest per-height provider whose tip moves between the calls of one request.",
+   "Every field and byte of recorded provider responses (block, results, validators, parameters, transactions, proofs) is altered; an accepted response must have the same header-bound normal form as the original; inclusion proofs verify only for their own transaction and block. Multi-height histories run against one long-lived Core with responses of other heights relabelled, so stale caches show; times are compared exactly (sub-second alterations). Whole CBOR items of every provider blob are replaced by null / empty containers (nil pointers and nil slice entries on the Go side); Core.GetTransactionsWithResults is called with transactions of another height and, for the latest height, against an honest per-height provider whose tip moves between the calls of one request. Eight callers ask the long-lived Core for different heights at the same time on chains above height 25,000,000.",
    "Events in block results are excluded (code TODO #6210).",
    "DESIGN.md 4/C19"),
  "C20": ("exploration", "online reference-model monitor of the scheduler and of the mutex-guarded main queue (H4 exports) + race detector on concurrent callers",
